@@ -124,11 +124,13 @@ func genCompletion(rng *rand.Rand) completion {
 	// how a tool call's first fragments are cut ("tool name/id ... split points"): nearly always as
 	// the mainstream backends send it, sometimes id and name in successive fragments, sometimes the
 	// name itself in two fragments (the OpenAI delta format concatenates strings per index)
-	switch rng.Intn(10) {
+	switch rng.Intn(12) {
 	case 0:
 		c.Hdr = "id-then-name"
 	case 1:
 		c.Hdr = "name-split"
+	case 2:
+		c.Hdr = "id-alone" // first fragment {index, id, type} without a function member at all
 	}
 	tot := 0
 	for _, s := range c.Segs {
@@ -199,6 +201,9 @@ func renderSSE(rng *rand.Rand, c completion) []byte {
 		switch {
 		case c.Hdr == "id-then-name":
 			hdr = map[string]any{"tool_calls": []any{map[string]any{"index": ti, "id": s.ID, "type": "function", "function": map[string]any{"arguments": ""}}}}
+			hdr2 = map[string]any{"tool_calls": []any{map[string]any{"index": ti, "function": map[string]any{"name": s.Name, "arguments": first}}}}
+		case c.Hdr == "id-alone":
+			hdr = map[string]any{"tool_calls": []any{map[string]any{"index": ti, "id": s.ID, "type": "function"}}}
 			hdr2 = map[string]any{"tool_calls": []any{map[string]any{"index": ti, "function": map[string]any{"name": s.Name, "arguments": first}}}}
 		case c.Hdr == "name-split" && len(s.Name) > 1:
 			k := 1 + rng.Intn(len(s.Name)-1)
